@@ -74,3 +74,47 @@ contract(IT + ".timestamps", serves=["C15", "C13"], spec_module="spec.queries",
          ensures=[("strictly-sorted", "adjacent(result, lambda a, b: a < b)"),
                   ("only-boundaries", "subset(result, interval_boundaries(self))"),
                   ("all-boundaries", "subset(interval_boundaries(self), result)")])
+
+# ---- invertIntervalList (C15, C17): complement of a sorted, disjoint interval list within bounds.  The loop over
+# range(len - 1) of the list that got sentinel head / tail elements inserted is split at its end indices (peel rule,
+# pyvc/listops.py: flatMap_range_succ / flatMap_range_succ_last in lean/Lifting.lean)
+U = "praatio.utilities.utils."
+contract(U + "invertIntervalList", serves=["C15", "C17"], spec_module="spec.queries",
+         configs={"minValue": [None, "sym"], "maxValue": [None, "sym"]},
+         inputs=lambda S, cfg: dict(inputList=S.list("inputList", "pair", pair="a[1] <= b[0]"),
+                                    minValue=None if cfg["minValue"] is None else S.real("minValue"),
+                                    maxValue=None if cfg["maxValue"] is None else S.real("maxValue")),
+         requires=["len(inputList) > 0 or (minValue is not None and maxValue is not None)",
+                   "minValue is None or len(inputList) == 0 or minValue <= inputList[0][0]",
+                   "maxValue is None or len(inputList) == 0 or inputList[-1][1] <= maxValue",
+                   "minValue is None or maxValue is None or minValue < maxValue"],
+         spec="spec.queries.invertIntervalList", frame=["inputList"],
+         engine_opts={"touch": True, "successor": True},
+         ensures=[("positive-length", "forall(result, lambda g: g[0] < g[1])"),
+                  ("ordered", "adjacent(result, lambda a, b: a[1] <= b[0])")])
+
+
+# ---- C17: the keep / delete partition (invertIntervalList's spec stands in at the two call sites)
+def kd_list(S, name, present):
+    if present is None:
+        return None
+    if present == "empty":
+        return S.pylist([])
+    return S.list(name, "pair", all="e[0] < e[1]", pair="a[1] <= b[0]")
+
+
+KD = ["len(%s) == 0 or (start <= %s[0][0] and %s[-1][1] <= stop)" % (n, n, n) for n in ("keepIntervals", "deleteIntervals")]
+contract("praatio.audio._computeKeepDeleteIntervals", serves=["C17"], spec_module="spec.queries",
+         configs={"keep": [None, "empty", "sym"], "delete": [None, "empty", "sym"]},
+         inputs=lambda S, cfg: dict(start=S.real("start"), stop=S.real("stop"),
+                                    keepIntervals=kd_list(S, "keepIntervals", cfg["keep"]),
+                                    deleteIntervals=kd_list(S, "deleteIntervals", cfg["delete"])),
+         requires=["start < stop"] + ["%s is None or %s" % (n, r) for n, r in zip(("keepIntervals", "deleteIntervals"), KD)],
+         spec="spec.queries.computeKeepDeleteIntervals", frame=["keepIntervals", "deleteIntervals"],
+         engine_opts={"touch": True, "successor": True, "sorted_forward": True, "pair_forward": True},
+         ensures=[("positive-length", "forall(result, lambda g: g[0] < g[1])"),
+                  ("within", "forall(result, lambda g: start <= g[0] and g[1] <= stop)"),
+                  # that consecutive stretches share their boundary (the labelled stretches tile [start, stop]) is a
+                  # statement about the sorted merge of two interleaved lists: not derivable by the engine, checked
+                  # bounded by c17_extraction
+                  ("from-start", "result[0][0] == start"), ("to-stop", "result[-1][1] == stop")])
